@@ -145,7 +145,8 @@ def check_v2_state(acc, st, origin, source, size, dyn=None, skip_helpers=True, f
 def do_v2_program(acc, source, origin, size, dyn):
     acc.add("v2_programs_generated")
     try:
-        st = compile_v2(source)
+        flows = list(v2x.parse_program(source)["flows"])
+        st = compile_v2(flows=flows)
     except Exception as ex:  # loader refuses the program: outside the property
         acc.add("v2_programs_rejected_by_loader")
         key = f"{type(ex).__name__}: {str(ex)[:70]}"
@@ -153,6 +154,17 @@ def do_v2_program(acc, source, origin, size, dyn):
         return
     acc.add("v2_programs_checked")
     check_v2_state(acc, st, origin, source, size, dyn)
+    if "while" in source or "when" in source:
+        # a second runtime built from the same parse result (two LLMRails objects on one RailsConfig):
+        # the compiled flows of the second compilation must be closed as well
+        try:
+            st2 = compile_v2(flows=flows)
+        except Exception as ex:
+            acc.violation("v2:second-compilation-raised", f"[{origin}] compiling the same parsed flows a second time raised {type(ex).__name__}: {str(ex)[:120]}",
+                          {"kind": "v2", "origin": origin, "source": source, "file": None, "flow": None, "detail": {"second_compilation": True}, "size": size})
+            return
+        acc.add("v2_programs_compiled_twice")
+        check_v2_state(acc, st2, origin + ":second-compilation", source, size, None)
 
 
 def do_v1_flows(acc, flows, origin, source, size, file_rel=None):
@@ -229,6 +241,14 @@ def do_file(acc, rel):
     acc.add("files_checked")
     if version == "2.x":
         cfgs = check_v2_state(acc, st, f"file:{rel}", None, 0, dyn=None, skip_helpers=False, file_rel=rel)
+        try:
+            st2 = compile_v2(flows=flows)
+        except Exception as ex:
+            acc.violation("v2:second-compilation-raised", f"[file:{rel}] compiling the same parsed flows a second time raised {type(ex).__name__}: {str(ex)[:120]}",
+                          {"kind": "v2", "origin": f"file:{rel}", "source": None, "file": rel, "flow": None, "detail": {"second_compilation": True}, "size": 0})
+        else:
+            acc.add("v2_programs_compiled_twice")
+            check_v2_state(acc, st2, f"file:{rel}:second-compilation", None, 0, dyn=None, skip_helpers=False, file_rel=rel)
         acc.samples.append({
             "kind": "v2-file", "file": rel, "flows_compiled": len(cfgs),
             "abstract_states": sum(len(c.states) for c in cfgs.values()),
@@ -246,6 +266,11 @@ def rich(kmax):
     if kmax not in _RICH_CACHE:
         _RICH_CACHE[kmax] = gen.rich_statements(kmax)
     return _RICH_CACHE[kmax]
+
+
+def task_dyn(key):
+    # the interpreter binding for the 3-branch groups that end the flow or sit in a loop
+    return {"depth": 4, "max_steps": 150} if key[0] == 3 and max(key[1]) <= 2 else None
 
 
 def work(task):
@@ -286,6 +311,13 @@ def work(task):
         for l1 in gen.V1_RICH:
             for l2 in gen.V1_RICH:
                 do_v1_program(acc, gen.pair_v1(l1, l2), f"v1pair:{l1[0]}+{l2[0]}", 4)
+    elif kind == "whenfam":
+        _, version, mc, ml = task
+        for key, src in gen.when_family(version, mc, ml):
+            if version == "1.0":
+                do_v1_program(acc, src, f"v1when:{key}", sum(key[1]))
+            else:
+                do_v2_program(acc, src, f"v2when:{key}", sum(key[1]), task_dyn(key))
     elif kind == "file":
         do_file(acc, task[1])
     else:
@@ -304,6 +336,7 @@ def tasks(tier):
     dynp = {"depth": t["depth"], "max_steps": t["max_steps"]}
     # the curated programs are few: longer histories (two loop iterations)
     out = [("v2cur", {"depth": max(6, t["depth"]), "max_steps": 1500}), ("v1rich",)]
+    out += [("whenfam", "1.0", 3 if tier == "quick" else 4, 3), ("whenfam", "2.x", 3 if tier == "quick" else 4, 3 if tier == "quick" else 2)]
     files = F.all_co_files()
     for i, rel in enumerate(files):
         if i % t["files_stride"] == 0:
